@@ -48,10 +48,11 @@ class Eval:
 
     def ev(self, t, bound=()):
         key = (t.get_id(), bound)
-        if key in self.cache:
-            return self.cache[key]
+        hit = self.cache.get(key)
+        if hit is not None:
+            return hit[1]
         r = self._ev(t, bound)
-        self.cache[key] = r
+        self.cache[key] = (t, r)  # the term is kept alive: z3 recycles AST ids of freed terms
         return r
 
     def _ev(self, t, bound):
